@@ -438,6 +438,14 @@ def _increments(n, seed=1):
     dt = rng.uniform(0.005, 0.02, n)
     t = 10.0 + np.cumsum(dt)
     data = np.hstack([dt[:, None], rng.randn(n, 3) * 1e-3, rng.randn(n, 3) * 0.05 + np.array([0, 0, -9.8]) * dt[:, None]])
+    # rows with special VALUES: an exactly zero rotation (gyro dead band / zero-filled dropout), an
+    # exactly zero velocity increment - code that tests the data for zero must not depend on where
+    # the chunk boundaries fall
+    for k in range(n):
+        if k % 3 == 1:
+            data[k, 1:4] = 0.0
+        if k % 5 == 3:
+            data[k, 4:7] = 0.0
     return pd.DataFrame(data, index=pd.Index(t, name='time'),
                         columns=['dt', 'theta_x', 'theta_y', 'theta_z', 'dv_x', 'dv_y', 'dv_z'])
 
